@@ -584,9 +584,20 @@ func mutationSensitivity(repo, verif string, keys []string) map[string]interface
 				}
 				obls = append(obls, r.Obls...)
 			}
-			if !dead {
-				solveAll(MP, obls, 8000, false, 3)
-				for _, o := range obls {
+			// posts, invariants and asserts first; stop at the first obligation that no longer discharges
+			sort.SliceStable(obls, func(i, j int) bool {
+				ri := strings.HasPrefix(obls[i].Kind, "safety") || obls[i].Cover
+				rj := strings.HasPrefix(obls[j].Kind, "safety") || obls[j].Cover
+				return !ri && rj
+			})
+			for start := 0; start < len(obls) && !dead; start += 60 {
+				end := start + 60
+				if end > len(obls) {
+					end = len(obls)
+				}
+				chunk := obls[start:end]
+				solveAll(MP, chunk, 8000, false, 6)
+				for _, o := range chunk {
 					if !o.Cover && o.Result != nil && o.Result.Verdict != "unsat" {
 						dead = true
 					}
